@@ -181,6 +181,20 @@ def eval_file_g1(L, T, rows):
     return "\n".join(out) + "\n"
 
 
+def finite_rows(ctx, once, case, rows):
+    """a non-finite value inside the open domain is itself a failing input"""
+    good = []
+    for kind, x, y in rows:
+        if math.isfinite(y):
+            good.append((kind, x, y))
+        else:
+            once(ctx, "%s component %s at %s is %r" % (
+                {"dec": "decompactify", "jac": "compactificationDerivatives",
+                 "com": "compactify"}[kind[:3]], kind[-1], x, y),
+                dict(kind="value", case=case, fn=kind, x=str(x)), "nonfinite-value:" + kind)
+    return good
+
+
 def impl_rows(g, xs_pos, xs_rz, xs_rp, with_com=True, com_pos=False):
     """implementation values at scalar points (the three directions separately)"""
     rows = []
@@ -569,6 +583,66 @@ def replay_witnesses(ctx, once):
         ctx.log("large-smoothing witness now rejected by the constructor:", ex)
 
 
+def certified_stage(ctx, once, rng):
+    """model vs implementation: certified interval evaluation (tie X)"""
+    files = []
+    nsets = ctx.n(8, 32)
+    npts = ctx.n(3, 6)
+    for m in range(nsets):
+        p = rand_g3(rng, equal=(m % 4 == 0), near_bound=(m % 3 == 1))
+        g = mk_g3(p)
+        rows = impl_rows(g, rand_compact(rng, npts), rand_compact(rng, 2),
+                         [Fraction(-1), Fraction(rng.randint(-1000, 1000), 1024)],
+                         with_com=(m % 2 == 0))
+        rows = finite_rows(ctx, once, dict(three=True, params=jp(p)), rows)
+        files.append((dict(three=True, params=jp(p)), rows,
+                      ctx.write("Cases/Eval3_%d.v" % m, eval_file_g3(p, rows))))
+        if m == 0:
+            ctx.sample(dict(params=jp(p), rows=[(k, str(x), y) for k, x, y in rows[:4]]))
+    for m in range(ctx.n(2, 8)):
+        L, T = dy(rng, 16, 31, -11, 3), dy(rng, 8, 31, -6, 3)
+        g = mk_g1(L, T)
+        rows = impl_rows(g, rand_compact(rng, npts), rand_compact(rng, 2),
+                         [Fraction(-1), Fraction(rng.randint(-1000, 1000), 1024)],
+                         with_com=True, com_pos=True)
+        rows = finite_rows(ctx, once, dict(three=False, L=str(L), T=str(T)), rows)
+        files.append((dict(three=False, L=str(L), T=str(T)), rows,
+                      ctx.write("Cases/Eval1_%d.v" % m, eval_file_g1(L, T, rows))))
+    procs = []
+    done = []
+    for case, rows, path in files:
+        procs.append((case, rows, path, subprocess.Popen(
+            ["timeout", "900", "coqc"] + ctx.coq_args() + [path], cwd=ctx.bdir,
+            stdout=subprocess.PIPE, stderr=subprocess.PIPE, text=True)))
+        if len(procs) >= 14:
+            done += [(c, r, p, pr, pr.communicate()) for c, r, p, pr in procs]
+            procs = []
+    done += [(c, r, p, pr, pr.communicate()) for c, r, p, pr in procs]
+    for case, rows, path, pr, (out, err) in done:
+        for _ in rows:
+            ctx.count("certified_eval", None)
+        ctx.count("certified_eval_file", case,
+                  bucket="three" if case["three"] else "simple")
+        if pr.returncode != 0:
+            import re
+            mm = None
+            for mm in re.finditer(r'line (\d+), characters [\d-]+:\s*\n\s*Error', err):
+                break
+            which = None
+            if mm:
+                ln = int(mm.group(1))
+                txt = open(path).read().splitlines()
+                goals = [i for i, l in enumerate(txt, 1) if l.startswith("Goal ")]
+                idx = max([k for k, i in enumerate(goals) if i <= ln], default=None)
+                if idx is not None and idx < len(rows):
+                    which = rows[idx]
+            ctx.broken.append("correspondence: certified evaluation %s" %
+                              path.split("/")[-1])
+            ctx.log("certified evaluation failed for", json.dumps(case), "row",
+                    which and (which[0], str(which[1]), which[2]), vlib.tail(err, 4))
+
+
+
 # ---------------------------------------------------------------------------------------
 
 def run(ctx):
@@ -594,58 +668,13 @@ def run(ctx):
     once = Once()
 
     # --- (3) model vs implementation: certified interval evaluation ---------------------
-    files = []
     if gen_ok:
-        nsets = ctx.n(8, 32)
-        npts = ctx.n(3, 6)
-        for m in range(nsets):
-            p = rand_g3(rng, equal=(m % 4 == 0), near_bound=(m % 3 == 1))
-            g = mk_g3(p)
-            rows = impl_rows(g, rand_compact(rng, npts), rand_compact(rng, 2),
-                             [Fraction(-1), Fraction(rng.randint(-1000, 1000), 1024)],
-                             with_com=(m % 2 == 0))
-            files.append((dict(three=True, params=jp(p)), rows,
-                          ctx.write("Cases/Eval3_%d.v" % m, eval_file_g3(p, rows))))
-            if m == 0:
-                ctx.sample(dict(params=jp(p), rows=[(k, str(x), y) for k, x, y in rows[:4]]))
-        for m in range(ctx.n(2, 8)):
-            L, T = dy(rng, 16, 31, -11, 3), dy(rng, 8, 31, -6, 3)
-            g = mk_g1(L, T)
-            rows = impl_rows(g, rand_compact(rng, npts), rand_compact(rng, 2),
-                             [Fraction(-1), Fraction(rng.randint(-1000, 1000), 1024)],
-                             with_com=True, com_pos=True)
-            files.append((dict(three=False, L=str(L), T=str(T)), rows,
-                          ctx.write("Cases/Eval1_%d.v" % m, eval_file_g1(L, T, rows))))
-        procs = []
-        done = []
-        for case, rows, path in files:
-            procs.append((case, rows, path, subprocess.Popen(
-                ["timeout", "900", "coqc"] + ctx.coq_args() + [path], cwd=ctx.bdir,
-                stdout=subprocess.PIPE, stderr=subprocess.PIPE, text=True)))
-            if len(procs) >= 14:
-                done += [(c, r, p, pr, pr.communicate()) for c, r, p, pr in procs]
-                procs = []
-        done += [(c, r, p, pr, pr.communicate()) for c, r, p, pr in procs]
-        for case, rows, path, pr, (out, err) in done:
-            for _ in rows:
-                ctx.count("certified_eval", None)
-            ctx.count("certified_eval_file", case,
-                      bucket="three" if case["three"] else "simple")
-            if pr.returncode != 0:
-                import re
-                mm = re.search(r"line (\d+)", err)
-                which = None
-                if mm:
-                    ln = int(mm.group(1))
-                    txt = open(path).read().splitlines()
-                    goals = [i for i, l in enumerate(txt, 1) if l.startswith("Goal ")]
-                    idx = max([k for k, i in enumerate(goals) if i <= ln], default=None)
-                    if idx is not None and idx < len(rows):
-                        which = rows[idx]
-                ctx.broken.append("correspondence: certified evaluation %s" %
-                                  path.split("/")[-1])
-                ctx.log("certified evaluation failed for", json.dumps(case), "row",
-                        which and (which[0], str(which[1]), which[2]), vlib.tail(err, 4))
+        try:
+            certified_stage(ctx, once, rng)
+        except Exception as ex:   # noqa: BLE001
+            import traceback
+            ctx.log("certified evaluation stage raised", traceback.format_exc())
+            ctx.broken.append("harness: certified evaluation stage raised %r" % ex)
 
     # --- (4) the property on the implementation -----------------------------------------
     replay_witnesses(ctx, once)
